@@ -210,7 +210,7 @@ func c11GenService(r *gen.R, scope string) config.Service {
 	case 0:
 		s.Match = []config.Value{{Name: "protocol", Values: []string{r.PickS("ip", "lcp")}}}
 	case 1:
-		s.Match = []config.Value{{Name: "scope", Values: []string{r.PickS(scope, "elsewhere")}}}
+		s.Match = []config.Value{{Name: "scope", Values: []string{r.PickS(scope, "edge", "elsewhere")}}}
 	}
 	for i, n := 0, 1+r.Intn(3); i < n; i++ {
 		s.SetValues = append(s.SetValues, config.Value{Name: r.PickS("priv-lvl", "addr-pool", "shell:roles", "idletime", "acl"), Values: []string{r.PickS("15", "1", "admin", "pool-a", "network-admin vdc-admin")}, Optional: r.Chance(1, 3)})
@@ -218,12 +218,19 @@ func c11GenService(r *gen.R, scope string) config.Service {
 	return s
 }
 
-func c11Config(r *gen.R, nUsers int) (config.ServerConfig, []*c11User, scopeInfo) {
+func c11Config(r *gen.R, nUsers int) (config.ServerConfig, []*c11User, []scopeInfo) {
 	sc := scopeInfo{Name: "lab", Key: "k" + r.Alnum(8), Prefix: "10.0.0.0/16"}
-	cfg := config.ServerConfig{Secrets: []config.SecretConfig{refsrv.Scope(sc.Name, sc.Key, sc.Prefix)}}
+	sc2 := scopeInfo{Name: "edge", Key: "e" + r.Alnum(8), Prefix: "10.1.0.0/16", Octet: 1}
+	cfg := config.ServerConfig{Secrets: []config.SecretConfig{refsrv.Scope(sc.Name, sc.Key, sc.Prefix), refsrv.Scope(sc2.Name, sc2.Key, sc2.Prefix)}}
 	var users []*c11User
 	for i := 0; i < nUsers; i++ {
 		u := config.User{Name: fmt.Sprintf("u%d", i), Scopes: []string{sc.Name}}
+		if i%2 == 1 {
+			u.Scopes = []string{sc.Name, sc2.Name} // several scopes, in the order of the secrets
+		}
+		if i%8 == 7 {
+			u.Scopes = []string{sc2.Name, sc.Name}
+		}
 		cu := &c11User{Name: u.Name, Canon: true}
 		var forms []string
 		for k, n := 0, r.Intn(5); k < n; k++ {
@@ -257,7 +264,7 @@ func c11Config(r *gen.R, nUsers int) (config.ServerConfig, []*c11User, scopeInfo
 		cfg.Users = append(cfg.Users, u)
 		users = append(users, cu)
 	}
-	return cfg, users, sc
+	return cfg, users, []scopeInfo{sc, sc2}
 }
 
 // sessionExpect computes the expected argument set of a canonical session request.
@@ -392,19 +399,31 @@ func runC11(b *mon.B) {
 	nCfg := b.N(3, 40)
 	perCfg := b.N(1300, 4500)
 	for ci := 0; ci < nCfg; ci++ {
-		cfg, users, sc := c11Config(r, 24)
+		cfg, users, scs := c11Config(r, 24)
+		sc := scs[0]
 		ref, err := refsrv.Start(cfg, refsrv.Options{ViaYAML: ci%2 == 0})
 		if err != nil {
 			b.Inconclusive("configuration did not load: %v", err)
 			continue
 		}
 		ref.Net.SetKeepLog(false)
-		rc := newRefConn(ref, 1, []byte(sc.Key))
+		rcs := []*refConn{newRefConn(ref, 1, []byte(scs[0].Key)), newRefConn(ref, 1<<16|1, []byte(scs[1].Key))}
+		rc := rcs[0]
 		sid := uint32(0)
 		for k := 0; k < perCfg; k++ {
 			caseNo++
 			cu := users[r.Intn(len(users))]
 			userName := cu.Name
+			// the connection's scope: one of the scopes the user is assigned to
+			scopeIdx := 0
+			if len(cu.U.Scopes) > 1 && r.Bool() {
+				scopeIdx = 1
+			}
+			if cu.U.Scopes[scopeIdx] == "edge" {
+				sc, rc = scs[1], rcs[1]
+			} else {
+				sc, rc = scs[0], rcs[0]
+			}
 			kind := r.Intn(10)
 			var args []string
 			shape := ""
@@ -505,7 +524,8 @@ func runC11(b *mon.B) {
 				if res.Err != nil {
 					b.Inconclusive("watchdog")
 				}
-				rc = newRefConn(ref, k+2, []byte(sc.Key))
+				rc = newRefConn(ref, sc.Octet<<16|(k%60000+2), []byte(sc.Key))
+				rcs[sc.Octet] = rc
 				continue
 			}
 			b.Eval(1)
@@ -629,7 +649,9 @@ func runC11(b *mon.B) {
 				b.Sample(path, wit())
 			}
 		}
-		rc.c.EOF()
+		for _, x := range rcs {
+			x.c.EOF()
+		}
 		ref.Close()
 	}
 }
